@@ -51,7 +51,7 @@ package base
 //@   ensures ghost.executors_run == old(ghost.executors_run) + 1 && ghost.step_failed == (old(ghost.step_failed) || result != nil) && ghost.execs >= old(ghost.execs)
 
 //@ func (*BaseUndoLogManager).DeleteUndoLog
-//@   prop C10
+//@   prop C10 C01
 //@   requires conn != nil
 //@   modifies ghost.step_failed, ghost.execs, ghost.stmts_open, ghost.log_deletes
 //@   ensures propagates: ghost.step_failed == (old(ghost.step_failed) || result != nil)
